@@ -39,10 +39,17 @@ def llist(items):
     return '[' + ', '.join(items) + ']'
 
 
+def _key_text(k):
+    """Canonical text of a dictionary key (the repr of a frozenset depends on its history)."""
+    if isinstance(k, (set, frozenset)):
+        return 'frozenset(' + ','.join(sorted(repr(x) for x in k)) + ')'
+    return repr(k)
+
+
 def deep_digest(obj):
     """Structural, bit-exact digest of a state dictionary."""
     if isinstance(obj, dict):
-        return ('d', tuple(sorted((repr(k), deep_digest(v)) for k, v in obj.items())))
+        return ('d', tuple(sorted((_key_text(k), deep_digest(v)) for k, v in obj.items())))
     if isinstance(obj, (list, tuple)):
         return ('l', tuple(deep_digest(v) for v in obj))
     if isinstance(obj, numpy.ndarray):
